@@ -800,6 +800,26 @@ func randValueOf(g *Gen, t octosql.Type) octosql.Value {
 }
 
 func genCoalesce13(g *Gen, w *bufio.Writer) {
+	if g.Chance(1, 6) {
+		// a concrete object / tuple target with a nullable source of the same shape: the mappings of ALL alternatives of
+		// the source union set the Struct / Tuple pointer here, so the merge order of mergeMappings decides
+		// (not what TypeSum would give as the result type, but within the contract of NewObjectLayoutFixer: target hosts source)
+		var t octosql.Type
+		for i := 0; i < 20; i++ {
+			t = randType13(g, 2)
+			if t.TypeID == octosql.TypeIDStruct || t.TypeID == octosql.TypeIDTuple {
+				break
+			}
+		}
+		if t.TypeID == octosql.TypeIDStruct || t.TypeID == octosql.TypeIDTuple {
+			src := octosql.TypeSum(t, octosql.Null)
+			if g.Bool() {
+				src = octosql.TypeSum(src, Pick(g, scalarTypes13))
+			}
+			fmt.Fprintf(w, "coalesce %s 1 %s %s\n", EncodeType(t), EncodeType(src), Enc13(randValueOf(g, t)))
+			return
+		}
+	}
 	k := 1 + g.Intn(3)
 	srcs := make([]octosql.Type, k)
 	base := randType13(g, 2)
